@@ -11,7 +11,7 @@ from .fontlib import gdl, gen
 
 def _make(args):
     kind, seed, i, outdir = args
-    rng = random.Random((seed * 1000003 + i) * 7 + {'hostile': 1, 'c06': 2, 'wellformed': 3, 'just': 4, 'stateful': 5}.get(kind, 9))
+    rng = random.Random((seed * 1000003 + i) * 7 + {'hostile': 1, 'c06': 2, 'wellformed': 3, 'just': 4, 'stateful': 5, 'cmap': 6}.get(kind, 9))
     for attempt in range(20):
         try:
             if kind == 'hostile':
@@ -20,9 +20,12 @@ def _make(args):
                 spec = gen.just_spec(rng)
             elif kind == 'stateful':
                 spec = gen.stateful_spec(rng)
+            elif kind == 'cmap':
+                spec = gen.cmap_spec(rng)
             else:
                 spec = gen.gen_spec(rng, gen.C06_ALL)
-            gen.vary_container(rng, spec)
+            if kind != 'cmap' or rng.random() < 0.5:
+                gen.vary_container(rng, spec)
             data = gdl.build_font(spec)
         except ValueError:
             continue
@@ -35,6 +38,11 @@ def _make(args):
             f.write(data)
         with open(path[:-4] + '.json', 'w') as f:
             json.dump(spec, f)
+        if spec.get('pseudos'):
+            ng = len(spec['glyphs'])
+            with open(path[:-4] + '.pseudo', 'w') as f:
+                for u, g in spec['pseudos']:
+                    f.write('%d %d %d\n' % (u, g, spec['extra_attr_glyphs'][g - ng]['attrs'][0]))
         return path
     return None
 
